@@ -15,6 +15,7 @@ RULE = (
     "classical circuits up to 14), gate counts and input immutability checked; non-trivial = the optimizer re-synthesised and spliced >=1 section "
     "or the circuit has a classical run of >=2 gates; distinct by gate list"
 )
+PREIMPORT = ["numpy"]
 DECIDING = ["optimized", "unitaries_compared", "sections_resynthesised"]
 ASSUMPTIONS = ["own numpy state-vector simulator (cross-checked against qiskit in the self-test)"]
 CASE_TIMEOUT = {"quick": 60, "thorough": 120}
